@@ -120,7 +120,13 @@ func (s *JavaFullListener) exitBody() {
 	}
 
 	if currentNode.Type == "InnerStructures" && len(classNodeQueue) >= 1 {
-		classNodeQueue[0].InnerStructures = append(currentNode.InnerStructures, *currentNode)
+		// the node of a nested class starts as a copy of the enclosing class's node, so the list it
+		// carries is the enclosing class's list so far (its earlier siblings), not types of its own:
+		// appended as it is, every nested class holds all earlier ones again and the model doubles
+		// with each of them
+		inner := *currentNode
+		inner.InnerStructures = nil
+		classNodeQueue[0].InnerStructures = append(currentNode.InnerStructures, inner)
 	} else {
 		classNodes = append(classNodes, *currentNode)
 	}
